@@ -299,7 +299,19 @@ class Env:
         for i, (p, _) in enumerate(procs):
             so, se = results[i]
             if p.returncode != 0:
-                raise RuntimeError('model driver failed: ' + se.decode(errors='replace')[-2000:])
+                # the driver died (the OCaml runtime's "Fatal error: out of memory" under the address-space limit cannot be
+                # caught inside it): evaluate the cases of this shard one process each; a case that kills its process has
+                # no result for lack of memory
+                part = procs[i][1].decode().split('\n')
+                part = [l for l in part if l]
+                if len(part) == 1 or not _retry:
+                    if len(part) == 1 and b'out of memory' in se:
+                        out[part[0].split('\t')[1]] = ['noresult:memory', '', '']
+                        continue
+                    raise RuntimeError('model driver failed: ' + se.decode(errors='replace')[-2000:])
+                for l in part:
+                    out.update(self.run_model([l], fuel=fuel, seed=seed, need_oracle=need_oracle, shards=1, case_timeout=case_timeout, _retry=False))
+                continue
             for line in so.decode().split('\n'):
                 if line:
                     fs = line.split('\t')
@@ -310,7 +322,8 @@ class Env:
             slow = set(k for k, v in out.items() if v and v[0] == 'noresult:timeout')
             if 0 < len(slow) <= 40:
                 again = [l for l in lines if l.split('\t')[1] in slow]
-                out.update(self.run_model(again, fuel=fuel, seed=seed, need_oracle=need_oracle, shards=1, case_timeout=case_timeout * 6, _retry=False))
+                for l in again:
+                    out.update(self.run_model([l], fuel=fuel, seed=seed, need_oracle=need_oracle, shards=1, case_timeout=case_timeout * 6, _retry=False))
         return out
 
 
